@@ -3,9 +3,11 @@
 package main
 
 import (
+	"encoding/json"
 	"flag"
 	"fmt"
 	"io"
+	corev1 "k8s.io/api/core/v1"
 	"os"
 
 	"k8s.io/klog/v2"
@@ -25,83 +27,120 @@ func main() {
 	n := fs.Int("n", 1000, "random case budget")
 	out := fs.String("out", ".", "output directory")
 	shards := fs.Int("shards", 16, "number of case files")
+	replay := fs.String("replay", "", "re-run the recorded case in this JSON file instead of generating (admission streams)")
 	fs.Parse(os.Args[2:])
 	klog.LogToStderr(false)
 	klog.SetOutput(io.Discard)
 	var set *cq.Set
 	var in *cq.Interner
-	switch stream {
-	case "gen":
-		if err := gen.Write(*out); err != nil {
-			fmt.Fprintln(os.Stderr, err)
+	if *replay != "" {
+		if stream == "c02" || stream == "c03" || stream == "c19" {
+			// pod streams: the recorded case holds the pod
+			js, err := os.ReadFile(*replay)
+			var rec struct {
+				Pod *corev1.Pod `json:"pod"`
+			}
+			if err == nil {
+				err = json.Unmarshal(js, &rec)
+			}
+			if err != nil || rec.Pod == nil {
+				fmt.Fprintln(os.Stderr, "replay: no pod in", *replay, err)
+				os.Exit(3)
+			}
+			streams.ReplayPod = rec.Pod
+			*replay = ""
+			*shards = 1
+		}
+	}
+	if *replay != "" {
+		pf, ok := map[string]string{"c01": "pf01", "c06": "pf06", "c07": "pf07", "c08": "pf08", "c09": "pf09", "c10": "pf10", "c11": "pf11", "c11cs": "pf11cs", "c12": "pf12", "c13adm": "pf13", "c18adm": "pf18"}[stream]
+		if !ok {
+			fmt.Fprintln(os.Stderr, "replay is only available for the admission streams")
+			os.Exit(2)
+		}
+		js, err := os.ReadFile(*replay)
+		if err == nil {
+			set, in, err = streams.AdmReplay(stream, pf, js)
+		}
+		if err != nil {
+			fmt.Fprintln(os.Stderr, "replay:", err)
 			os.Exit(3)
 		}
-		fmt.Println("gen ok")
-		return
-	case "c05":
-		set, in = streams.C05(*seed, *n)
-	case "c04":
-		set, in = streams.C04(*seed, *n)
-	case "c19":
-		set, in = streams.C19(*seed, *n)
-	case "c02":
-		set, in = streams.Pods("c02", *seed, *n, "Model.Api Model.Pod Model.Checks Corr.PodCases Corr.C02", "pod_case", "run_c02", true)
-	case "c03":
-		set, in = streams.Pods("c03", *seed, *n, "Model.Api Model.Pod Model.Checks Corr.PodCases Corr.C02", "pod_case", "run_c03", true)
-	case "c01":
-		set, in = streams.Adm("c01", *seed, *n, "pf01", []string{"pod"})
-	case "c06":
-		set, in = streams.Adm("c06", *seed, *n, "pf06", []string{"pod", "controller", "namespace"})
-	case "c07":
-		set, in = streams.Adm("c07", *seed, *n, "pf07", []string{"pod", "controller", "namespace"})
-	case "c08":
-		set, in = streams.Adm("c08", *seed, *n, "pf08", []string{"pod", "controller"})
-	case "c09":
-		set, in = streams.Adm("c09", *seed, *n, "pf09", []string{"controller"})
-	case "c10":
-		set, in = streams.Adm("c10", *seed, *n, "pf10", []string{"pod"})
-	case "c11":
-		set, in = streams.Adm("c11", *seed, *n, "pf11", []string{"namespace"})
-	case "c11cs":
-		set, in = streams.Adm("c11cs", *seed, *n, "pf11cs", []string{"namespace"})
-	case "c13adm":
-		set, in = streams.Adm("c13adm", *seed, *n, "pf13", []string{"pod", "controller"})
-	case "c12":
-		set, in = streams.Adm("c12", *seed, *n, "pf12", []string{"namespace"})
-	case "c18adm":
-		set, in = streams.Adm("c18adm", *seed, *n, "pf18", []string{"pod", "controller", "namespace"})
-	case "c13":
-		set, in = streams.C13(*seed, *n)
-	case "c14":
-		set, in = streams.C14(*seed, *n)
-	case "c15":
-		set, in = streams.C15(*seed, *n)
-	case "c15src":
-		set, in = streams.Src(*seed, *n, "pf_src15")
-		set.Stream = "c15src"
-	case "c12src":
-		set, in = streams.Src(*seed, *n, "pf_src12")
-		set.Stream = "c12src"
-	case "c07src":
-		set, in = streams.Src(*seed, *n, "pf_src07")
-		set.Stream = "c07src"
-	case "c16":
-		set, in = streams.C16(*seed, *n)
-	case "c17":
-		set, in = streams.C17(*seed, *n)
-	case "c17e2e":
-		set, in = streams.Deploy(*seed, *n)
-	case "c18":
-		set, in = streams.C18(*seed, *n)
-	case "c20":
-		set, in = streams.C20(*seed, *n)
-	case "admall":
-		set, in = streams.Adm("admall", *seed, *n, "pf_all", []string{"pod", "controller", "namespace"})
-	case "podstext":
-		set, in = streams.Pods("podstext", *seed, *n, "Model.Api Model.Pod Model.Checks Corr.PodCases", "pod_case", "run_pods_text", true)
-	default:
-		fmt.Fprintln(os.Stderr, "unknown stream", stream)
-		os.Exit(2)
+		*shards = 1
+	} else {
+		switch stream {
+		case "gen":
+			if err := gen.Write(*out); err != nil {
+				fmt.Fprintln(os.Stderr, err)
+				os.Exit(3)
+			}
+			fmt.Println("gen ok")
+			return
+		case "c05":
+			set, in = streams.C05(*seed, *n)
+		case "c04":
+			set, in = streams.C04(*seed, *n)
+		case "c19":
+			set, in = streams.C19(*seed, *n)
+		case "c02":
+			set, in = streams.Pods("c02", *seed, *n, "Model.Api Model.Pod Model.Checks Corr.PodCases Corr.C02", "pod_case", "run_c02", true)
+		case "c03":
+			set, in = streams.Pods("c03", *seed, *n, "Model.Api Model.Pod Model.Checks Corr.PodCases Corr.C02", "pod_case", "run_c03", true)
+		case "c01":
+			set, in = streams.Adm("c01", *seed, *n, "pf01", []string{"pod"})
+		case "c06":
+			set, in = streams.Adm("c06", *seed, *n, "pf06", []string{"pod", "controller", "namespace"})
+		case "c07":
+			set, in = streams.Adm("c07", *seed, *n, "pf07", []string{"pod", "controller", "namespace"})
+		case "c08":
+			set, in = streams.Adm("c08", *seed, *n, "pf08", []string{"pod", "controller"})
+		case "c09":
+			set, in = streams.Adm("c09", *seed, *n, "pf09", []string{"controller"})
+		case "c10":
+			set, in = streams.Adm("c10", *seed, *n, "pf10", []string{"pod"})
+		case "c11":
+			set, in = streams.Adm("c11", *seed, *n, "pf11", []string{"namespace"})
+		case "c11cs":
+			set, in = streams.Adm("c11cs", *seed, *n, "pf11cs", []string{"namespace"})
+		case "c13adm":
+			set, in = streams.Adm("c13adm", *seed, *n, "pf13", []string{"pod", "controller"})
+		case "c12":
+			set, in = streams.Adm("c12", *seed, *n, "pf12", []string{"namespace"})
+		case "c18adm":
+			set, in = streams.Adm("c18adm", *seed, *n, "pf18", []string{"pod", "controller", "namespace"})
+		case "c13":
+			set, in = streams.C13(*seed, *n)
+		case "c14":
+			set, in = streams.C14(*seed, *n)
+		case "c15":
+			set, in = streams.C15(*seed, *n)
+		case "c15src":
+			set, in = streams.Src(*seed, *n, "pf_src15")
+			set.Stream = "c15src"
+		case "c12src":
+			set, in = streams.Src(*seed, *n, "pf_src12")
+			set.Stream = "c12src"
+		case "c07src":
+			set, in = streams.Src(*seed, *n, "pf_src07")
+			set.Stream = "c07src"
+		case "c16":
+			set, in = streams.C16(*seed, *n)
+		case "c17":
+			set, in = streams.C17(*seed, *n)
+		case "c17e2e":
+			set, in = streams.Deploy(*seed, *n)
+		case "c18":
+			set, in = streams.C18(*seed, *n)
+		case "c20":
+			set, in = streams.C20(*seed, *n)
+		case "admall":
+			set, in = streams.Adm("admall", *seed, *n, "pf_all", []string{"pod", "controller", "namespace"})
+		case "podstext":
+			set, in = streams.Pods("podstext", *seed, *n, "Model.Api Model.Pod Model.Checks Corr.PodCases", "pod_case", "run_pods_text", true)
+		default:
+			fmt.Fprintln(os.Stderr, "unknown stream", stream)
+			os.Exit(2)
+		}
 	}
 	if err := set.Write(*out, *shards, in); err != nil {
 		fmt.Fprintln(os.Stderr, err)
